@@ -647,9 +647,9 @@ pub fn run(ctx: &Ctx, which: u8) -> (Spec, Report) {
     let spec = Spec {
         level: "translation_validation",
         rule: if which == 1 {
-            format!("{n_prog} generated programs (structs and struct variants, 1-8 conventionally named fields incl. raw identifiers and target-language keywords, serde(rename) over [A-Za-z_][A-Za-z0-9_-]*, 8 rename_all rules on container/variant, any attribute spelling/order, generic containers, prefix/package settings) x 6 languages; every field's bound key (TS property, @SerialName, CodingKeys, json tag, pydantic alias) is compared with the key real serde_json emitted for the same field (matched by ordinal sentinel values); a cell is distinct by (language, rule, rename/rule, container kind, key class) and non-trivial when key != Rust identifier")
+            format!("{n_prog} generated programs (structs and struct variants, 1-8 conventionally named fields incl. raw identifiers, target-language keywords and names that open with single-letter words (`r_g_b`), serde(rename) over [A-Za-z_][A-Za-z0-9_-]*, 8 rename_all rules on container/variant, any attribute spelling/order, generic containers, prefix/package settings) x 6 languages; every field's bound key (TS property, @SerialName, CodingKeys, json tag, pydantic alias) is compared with the key real serde_json emitted for the same field (matched by ordinal sentinel values); a cell is distinct by (language, rule, rename/rule, container kind, key class) and non-trivial when key != Rust identifier")
         } else {
-            format!("{n_prog} generated programs (unit enums and adjacently tagged enums, 1-8 variants, unit/newtype/struct variants, 8 rename_all rules, per-variant renames, 10 tag/content key pairs, generics, self-recursion) x 6 languages; variant wire names, every tag/content key site and the one-case-per-variant structure of the generated code are compared with real serde_json output for each variant; non-trivial = wire name != Rust identifier, or a tag/content site")
+            format!("{n_prog} generated programs (unit enums and adjacently tagged enums, 1-8 variants, unit/newtype/struct variants, 8 rename_all rules, per-variant renames, 15 tag/content key pairs (with acronyms, and with Kotlin-only hard keywords as keys), generics, self-recursion) x 6 languages; variant wire names, every tag/content key site and the one-case-per-variant structure of the generated code are compared with real serde_json output for each variant; non-trivial = wire name != Rust identifier, or a tag/content site")
         },
         assumptions: vec![
             "foreign facts are recovered by this harness's parsers (CPython for Python)".into(),
